@@ -1737,9 +1737,6 @@ def run_sync(shard, ctx):
 
 
 def replay_sync(case, ctx):
-    shard = dict(case, L=len(case.get("seq", [])) or 1)
-    if "seq" not in case:
-        shard["L"] = 0
     # re-run the one offset set on the one sequence
     import biotite.sequence.align as align
 
